@@ -1,4 +1,5 @@
 import CffiVerif.Model.Flatten
+import CffiVerif.Generated.FlattenPy
 
 /-! Lemmas behind the C32 theorems: the digit printer is inverted by a
 left-to-right evaluation, the parser inverts `flatten`, insertion sort by key
@@ -699,5 +700,78 @@ theorem append_x_inj (p q r s : Str) (hp : 120 ∉ p) (hq : 120 ∉ q)
       simp only [List.cons_append, List.cons.injEq] at h
       have := ih ys (fun hc => hp (by simp [hc])) (fun hc => hq (by simp [hc])) h.2
       exact ⟨by rw [h.1, this.1], this.2⟩
+
+/-! ### the model is the translation of the Python source (`Generated/FlattenPy.lean`) -/
+
+theorem intDigits_natCast (n : Nat) : intDigits ((n : Nat) : Int) = natDigits 10 n := by
+  unfold PyText.intDigits
+  have : ¬ ((n : Int) < 0) := by omega
+  simp [this]
+
+theorem joinNul_eq_join (ps : List Str) : joinNul ps = PyText.join [0] ps := by
+  induction ps with
+  | nil => rfl
+  | cons p ps ih =>
+    cases ps with
+    | nil => rfl
+    | cons q qs => simp only [joinNul, PyText.join, ih, List.append_assoc, List.singleton_append]
+
+theorem evens_eq_everySecond {α : Type} (l : List α) : evens l = PyText.everySecond l := by
+  induction l using evens.induct with
+  | case1 => rfl
+  | case2 a => rfl
+  | case3 a b rest ih => simp only [evens, PyText.everySecond, ih]
+
+theorem odds_cons_eq {α : Type} (a : α) (t : List α) : odds (a :: t) = PyText.everySecond t := by
+  induction t using evens.induct generalizing a with
+  | case1 => rfl
+  | case2 b => rfl
+  | case3 b c rest ih => simp only [odds, PyText.everySecond, ih c]
+
+theorem odds_eq_sliceStep2 {α : Type} (l : List α) : odds l = PyText.sliceStep2 1 l := by
+  cases l with
+  | nil => rfl
+  | cons a t => simp only [PyText.sliceStep2, List.drop_succ_cons, List.drop_zero, odds_cons_eq]
+
+theorem evens_eq_sliceStep2 {α : Type} (l : List α) : evens l = PyText.sliceStep2 0 l := by
+  simp only [PyText.sliceStep2, List.drop_zero, evens_eq_everySecond]
+
+/-- `rstrip` removes nothing from a string none of whose characters is in the set -/
+theorem rstrip_of_not_mem (chars s : Str) (h : ∀ c ∈ s, chars.contains c = false) :
+    PyText.rstrip chars s = s := by
+  unfold PyText.rstrip
+  cases hr : s.reverse with
+  | nil =>
+    have : s = [] := by simpa using hr
+    simp [this]
+  | cons a as =>
+    have ha : a ∈ s := by
+      have : a ∈ s.reverse := by rw [hr]; simp
+      simpa using this
+    simp only [List.dropWhile_cons, h a ha]
+    rw [← hr]; simp
+
+theorem no_L_in_hex_suffix (chars : Str) (c : Nat) :
+    ∀ x ∈ lstrip chars (pyHex c), ([76] : Str).contains x = false := by
+  intro x hx
+  have hx' : x ∈ pyHex c := (List.dropWhile_sublist _).subset hx
+  simp only [PyText.pyHex, List.mem_cons] at hx'
+  rcases hx' with rfl | rfl | hx'
+  · decide
+  · decide
+  · obtain ⟨d, hd, rfl⟩ := mem_natDigits 16 (by omega) c x hx'
+    simp only [PyText.digitChar]
+    split <;> simp <;> omega
+
+theorem name_of_eq (crc : List Nat → Nat) (hcrc : ∀ l, crc l < 4294967296) (tag classKey : Str)
+    (kb : List Nat) :
+    Generated.FlattenPy.name_of crc tag classKey kb = some (moduleName crc tag classKey kb) := by
+  unfold Generated.FlattenPy.name_of moduleName k1 k2
+  simp only [← evens_eq_sliceStep2, ← odds_eq_sliceStep2, Nat.mod_eq_of_lt (hcrc _)]
+  have e1 := rstrip_of_not_mem [76] _ (no_L_in_hex_suffix [48, 120] (crc (evens kb)))
+  have e2 := rstrip_of_not_mem [76] _ (no_L_in_hex_suffix [48] (crc (odds kb)))
+  simp only [lstrip] at e1 e2
+  simp only [PyText.lstrip, lstrip, e1, e2, PyText.format, Option.map_some, List.append_nil,
+    List.append_assoc]
 
 end CffiVerif.Flatten
